@@ -273,3 +273,27 @@ func verifLemmaResponsesRoundTrip(data []byte) []byte {
 	}
 	return out
 }
+
+func verifLemmaSecuritySchemeRoundTrip(data []byte) []byte {
+	var v SecurityScheme
+	if err := v.UnmarshalJSON(data); err != nil {
+		return nil
+	}
+	out, err := v.MarshalJSON()
+	if err != nil {
+		return nil
+	}
+	return out
+}
+
+func verifLemmaOperationRoundTrip(data []byte) []byte {
+	var v Operation
+	if err := v.UnmarshalJSON(data); err != nil {
+		return nil
+	}
+	out, err := v.MarshalJSON()
+	if err != nil {
+		return nil
+	}
+	return out
+}
